@@ -78,7 +78,7 @@ Step ==
             /\ T' = TreeOfInit(e) /\ f' = [c \in DOMAIN e.f |-> SubSeq(e.f[c], 1, 5)] /\ err' = InitCheck(PP, e) /\ ph' = "told"
             /\ UNCHANGED <<cand, ended, asked, z, chosen, csets, sched>>
        [] e.k = "mk" ->
-            LET c0 == MkCheck(PP, T, e) IN
+            LET c0 == MkCheckEv(PP, T, e, LAMBDA d : Cnt(f, d) > 0) IN
             /\ err' = IF c0 # "ok" THEN c0 ELSE IF ~(\A j \in DOMAIN e.nf : SubSeq(e.nf[j], 2, 4) = <<0, 0, 0>>) THEN "grow.not-fresh"
                       ELSE IF ~(\A i \in DOMAIN e.fc : e.fc[i][1] \in DOMAIN f /\ SubSeq(e.fc[i], 2, 5) = SubSeq(f[e.fc[i][1]], 1, 4)) THEN "stats.changed-in-make-children" ELSE "ok"
             /\ T' = IF c0 = "ok" THEN MkApply(PP, T, e) ELSE T
